@@ -1395,3 +1395,47 @@ Proof.
   intros [->|(t0 & x & y & -> & _ & Hy & _)]; [cbn; lia|].
   rewrite app_length. cbn [length]. assert (length t0 < length F) by (apply nth_error_Some; congruence). lia.
 Qed.
+
+(* every scalar of the result is a prefix of (or equal to) the scalar at the same index of the
+   original tape: never extended, never merged with its neighbour, never invented *)
+Lemma tok_cut_scalar x y s : tok_cut x y -> TextTapeWf.scalar_bytes x = Some s ->
+  exists s', TextTapeWf.scalar_bytes y = Some s' /\ bytes_prefix s s'.
+Proof.
+  intros [->|(s0 & s' & -> & Hy & Hp & _)] Hs.
+  - exists s. split; [exact Hs|exists []; rewrite app_nil_r; reflexivity].
+  - cbn [TextTapeWf.scalar_bytes] in Hs. injection Hs as <-. exists s'. split; [destruct Hy as [->| ->]; reflexivity|exact Hp].
+Qed.
+
+Lemma prefix_cut_scalars t F i x s : prefix_cut t F -> nth_error t i = Some x -> TextTapeWf.scalar_bytes x = Some s ->
+  exists y s', nth_error F i = Some y /\ TextTapeWf.scalar_bytes y = Some s' /\ bytes_prefix s s'.
+Proof.
+  intros Hc Hx Hs.
+  assert (Hi : i < length t) by (apply nth_error_Some; congruence).
+  destruct (Nat.eq_dec (i + 1) (length t)) as [E|E].
+  - destruct Hc as [->|(t0 & x0 & y & -> & _ & Hy & Hcut)]; [cbn in Hi; lia|].
+    rewrite app_length in E. cbn [length] in E. assert (i = length t0) by lia. subst i.
+    rewrite nth_error_snoc_len in Hx. injection Hx as <-.
+    destruct (tok_cut_scalar _ _ _ Hcut Hs) as (s' & H1 & H2). eauto.
+  - rewrite (prefix_cut_nth t F i Hc) in Hx by lia. exists x, s. split; [exact Hx|]. split; [exact Hs|].
+    exists []. rewrite app_nil_r. reflexivity.
+Qed.
+
+Theorem consistent_scalars F t i x s :
+  consistent_tape F t -> nth_error t i = Some x -> TextTapeWf.scalar_bytes x = Some s ->
+  exists y s', nth_error F i = Some y /\ TextTapeWf.scalar_bytes y = Some s' /\ bytes_prefix s s'.
+Proof.
+  intros [Hc|(p & body & y0 & Hp & -> & Hlen & Hy0 & Hb)] Hx Hs; [eapply prefix_cut_scalars; eauto|].
+  destruct (Nat.lt_ge_cases i p) as [Hlt|Hge].
+  - rewrite nth_error_app_l in Hx by lia. rewrite nth_error_firstn_lt in Hx by lia.
+    exists x, s. split; [exact Hx|]. split; [exact Hs|]. exists []. rewrite app_nil_r. reflexivity.
+  - rewrite nth_error_app2 in Hx by lia. rewrite Hlen in Hx.
+    destruct (i - p) as [|j] eqn:Ej; [cbn in Hx; injection Hx as <-; discriminate|].
+    cbn [nth_error] in Hx.
+    destruct (Nat.lt_ge_cases j (length body)) as [Hj|Hj].
+    + rewrite nth_error_app_l in Hx by exact Hj.
+      destruct (prefix_cut_scalars _ _ _ _ _ Hb Hx Hs) as (y & s' & H1 & H2 & H3).
+      rewrite nth_skipn in H1. replace (S p + j) with i in H1 by lia. eauto.
+    + rewrite nth_error_app2 in Hx by exact Hj.
+      destruct (j - length body) as [|j']; [cbn in Hx; injection Hx as <-; discriminate|].
+      destruct j'; discriminate.
+Qed.
